@@ -1,4 +1,4 @@
-//go:build verif
+//go:build verif && (p_all || p_c06)
 
 package props
 
@@ -522,5 +522,59 @@ func c06Run(c *mon.Ctx, csAny any) {
 		if c.WantSample() && cs.Class == "carry-sum" {
 			c.Sample(map[string]any{"case": cs, "expected": fmt.Sprintf("%064x", want), "observed": fmt.Sprintf("%064x", got), "stored_limbs": mon.HexLimbs(s.S)})
 		}
+	}
+}
+
+func c06RunConc(c *mon.Ctx, seed uint64) {
+	r := concRng("C06", seed)
+	n := oracle.N
+
+	var jobs []func() string
+
+	for i := 0; i < concJobs; i++ {
+		a, b := gen.Draw(r, n).X, gen.Draw(r, n).X
+		if a.Sign() == 0 {
+			a = big.NewInt(3)
+		}
+
+		op := i % 4
+
+		var want *big.Int
+
+		switch op {
+		case 0:
+			want = new(big.Int).ModInverse(a, n)
+		case 1:
+			want = oracle.Mod(new(big.Int).Mul(a, b), n)
+		case 2:
+			want = new(big.Int).Exp(a, big.NewInt(5), n)
+		default:
+			want = oracle.Mod(new(big.Int).Sub(oracle.Mod(new(big.Int).Add(a, b), n), oracle.Mod(new(big.Int).Mul(b, b), n)), n)
+		}
+
+		jobs = append(jobs, func() string {
+			s, t := mon.Scal(a), mon.Scal(b)
+
+			switch op {
+			case 0:
+				s.Invert()
+			case 1:
+				s.Multiply(t)
+			case 2:
+				s.Pow(mon.Scal(big.NewInt(5)))
+			default:
+				s.Add(t).Subtract(t.Copy().Square())
+			}
+
+			if got := mon.ScalVal(s); got.Cmp(want) != 0 || !mon.ScalCanonical(s) {
+				return fmt.Sprintf("op %d on (%x, %x) = %x, want %x", op, a, b, got, want)
+			}
+
+			return ""
+		})
+	}
+
+	if c.RunConcurrent("scalar arithmetic (Invert/Multiply/Pow/Add/Subtract/Square)", "scalar-arith-concurrent", 400, jobs) {
+		c.Seen("conc", seed)
 	}
 }
